@@ -158,7 +158,9 @@ func genAddress(t *rapid.T, allowTruncated bool) string {
 }
 
 // filler atoms: none of them contains an address of the supported shape; atoms are closed (they start and end with non-address characters)
-var neutralSeps = []string{" ", ",", ";", ":", "(", ")", "[", "]", "\"", "'", "=", "#", "é", "€", "😀", "\\n", "\\t", "<", ">", "!", "\xff", "\x00", "\n", "|"}
+// (the multi-byte ones include code points whose LOW byte is a letter, a digit or one of . - _ : に U+306B 'k', š U+0161 'a',
+// и U+0438 '8', 中 U+4E2D '-', Į U+012E '.', ş U+015F '_', 𐑁 U+10441 'A')
+var neutralSeps = []string{" ", ",", ";", ":", "(", ")", "[", "]", "\"", "'", "=", "#", "é", "€", "😀", "\\n", "\\t", "<", ">", "!", "\xff", "\x00", "\n", "|", "に", "š", "и", "中", "Į", "ş", "𐑁", "メ"}
 
 func genAtom(t *rapid.T) string {
 	sep := rapid.SampledFrom(neutralSeps)
@@ -507,7 +509,7 @@ func describe(cls map[int]atInfo) string {
 }
 
 func genText(t *rapid.T) TextCase {
-	alphabet := []string{"a", "b", "1", "9", ".", "-", "_", "@", "@", "/", " ", ",", "é", "\\n", "\xff", "Z", "0"}
+	alphabet := []string{"a", "b", "1", "9", ".", "-", "_", "@", "@", "/", " ", ",", "é", "\\n", "\xff", "Z", "0", "に", "š", "中"}
 	switch rapid.IntRange(0, 3).Draw(t, "kind") {
 	case 0: // dense soup over the critical alphabet
 		n := rapid.IntRange(0, 24).Draw(t, "n")
